@@ -59,6 +59,12 @@ __CPROVER_ensures(__CPROVER_return_value >= first && __CPROVER_return_value <= l
 __CPROVER_ensures(__CPROVER_return_value < last ? TQ_T(*q, __CPROVER_return_value) == t : 1)
 __CPROVER_ensures((G_i >= first && G_i < __CPROVER_return_value) ? TQ_T(*q, G_i) != t : 1)
 ;
+/* (*it)->expiry() for an iterator into the queue */
+static inline int64_t tq_exp_at(struct tq *q, size_t pos)
+{
+  __CPROVER_assert(pos < q->len, "[C12.deref] an iterator that is dereferenced points into the timer queue");
+  return q->exp[q->head + pos];
+}
 /* vector::erase(pos): elements before pos keep their place, elements after move down by one (at G_i) */
 extern size_t g_erase_pos; extern struct hrtimer *g_erased_t; extern size_t g_erase_calls;
 #define TQ_OLDIDX1(q, k) ((q)->head + (((k) < (q)->len) ? (k) : 0))
